@@ -26,7 +26,7 @@ func charSetDiff(pts []int64, got func(int64) (bool, bool), spec func(int64) boo
 		g, ok := got(p)
 		n++
 		if !ok {
-			return "cannot fold the predicate for code point " + cpStr(p), n
+			return "cannot fold the predicate for code point " + cpStr(p) + " (a condition on the character has no value there: for instance a table indexed beyond its length, which panics)", n
 		}
 		if g != spec(p) {
 			if g {
@@ -395,11 +395,12 @@ func c03(c *Ctx) {
 			for _, e := range x.Succs {
 				if edgeImplies(e, func(cnd ast.Expr, pol int) bool {
 					l, op, r, ok := cmpNorm(cnd, pol)
-					if !ok || constObj(tinfo, r) != k || op != token.GTR {
+					if !ok || constObj(tinfo, r) != k {
 						return false
 					}
 					_ = l
-					return true
+					// n > 32 tested after the append, or len == 32 / len >= 32 tested in front of it
+					return op == token.GTR || op == token.EQL || op == token.GEQ
 				}) {
 					// that edge must lead to an error return only
 					s, _ := g.ReachFromEdge(e, nil)
@@ -409,7 +410,25 @@ func c03(c *Ctx) {
 							only = false
 						}
 					}
-					okCmp = only
+					_, op0, _, _ := cmpNorm(e.Cond, e.Pol)
+					if only && op0 != token.GTR {
+						// the test in front: every append inside the loop is reached only past it (a list of 32 never grows)
+						for _, y := range g.Nodes {
+							as, isAs := y.N.(*ast.AssignStmt)
+							if !isAs || len(as.Rhs) != 1 || !g.InCycle(y) {
+								continue
+							}
+							if call, isCall := unparen(as.Rhs[0]).(*ast.CallExpr); isCall && builtinName(tinfo, call) == "append" {
+								s2, _ := g.ReachFromEntry(func(z *GNode) bool { return z == e.From }, nil)
+								if s2[y] {
+									only = false // an append is reachable without passing the test
+								}
+							}
+						}
+					}
+					if only {
+						okCmp = true
+					}
 				}
 			}
 		}
@@ -596,6 +615,7 @@ func c03(c *Ctx) {
 
 	ruleInsertCapacity(c, tx, "R1")
 	ruleInsertFront(c, tx, "R1")
+	ruleInsertLookupKey(c, tx, "R1")
 
 	defer c03Carriers(c, px)
 	c.Rule("R3", "E5 immutability (alias tracking)", "no method of TraceState writes through the receiver's list: element stores, append and copy destinations are rooted at fresh allocations", 4)
@@ -1917,4 +1937,106 @@ func ruleInsertFront(c *Ctx, tx *PkgIndex, rule string) {
 	if n == 0 {
 		c.Undecided(rule, "trace|TraceState.Insert|successful returns", at(tx.M, fn.Pos()), "no `return …, nil` found in Insert")
 	}
+}
+
+// ruleInsertLookupKey: "each key once" after an edit. Insert and Delete find the member to replace by comparing stored keys with a
+// key of their own; that key is the one the new member is stored under — the Key of the member newMember built, or the caller's
+// argument provided newMember stores its argument unchanged. A constructor that normalises the key (trims, folds case) while the
+// search still uses the caller's spelling misses the existing member and the list gets the key twice.
+func ruleInsertLookupKey(c *Ctx, tx *PkgIndex, rule string) {
+	info := tx.Pkg.TypesInfo
+	ins := c.Fn(tx, rule, "TraceState.Insert")
+	nm := tx.Func("newMember")
+	if ins == nil {
+		return
+	}
+	sig := ins.Obj.Type().(*types.Signature)
+	if sig.Params().Len() < 1 {
+		return
+	}
+	keyParam := sig.Params().At(0)
+	// does newMember store its key argument as given?
+	verbatim, why := true, ""
+	if nm != nil {
+		nsig := nm.Obj.Type().(*types.Signature)
+		if nsig.Params().Len() >= 1 {
+			kp := nsig.Params().At(0)
+			if assignedIn(info, nm.Body(), kp) {
+				verbatim, why = false, "newMember re-assigns its key parameter before storing it"
+			}
+			inspectNoLit(nm.Body(), func(n ast.Node) bool {
+				cl, ok := n.(*ast.CompositeLit)
+				if !ok {
+					return true
+				}
+				if nn := namedOf(info.TypeOf(cl)); nn == nil || nn.Obj().Name() != "member" {
+					return true
+				}
+				for i, el := range cl.Elts {
+					var val ast.Expr
+					if kv, isKV := el.(*ast.KeyValueExpr); isKV {
+						if id, isID := kv.Key.(*ast.Ident); isID && id.Name == "Key" {
+							val = kv.Value
+						}
+					} else if i == 0 {
+						val = el
+					}
+					if val != nil && !sameVar(info, val, kp) {
+						verbatim, why = false, "newMember stores "+exprStr(val)+" as the key"
+					}
+				}
+				return true
+			})
+		}
+	}
+	// the member built for this call
+	var built types.Object
+	inspectNoLit(ins.Body(), func(n ast.Node) bool {
+		if as, ok := n.(*ast.AssignStmt); ok && len(as.Rhs) == 1 && len(as.Lhs) >= 1 {
+			if call, ok := unparen(as.Rhs[0]).(*ast.CallExpr); ok && nm != nil && callToDecl(info, nm)(call) {
+				built = objOf(info, as.Lhs[0])
+			}
+		}
+		return true
+	})
+	n, bad := 0, ""
+	var badPos token.Pos
+	inspectNoLit(ins.Body(), func(nd ast.Node) bool {
+		be, ok := nd.(*ast.BinaryExpr)
+		if !ok || (be.Op != token.EQL && be.Op != token.NEQ) {
+			return true
+		}
+		for _, pair := range [][2]ast.Expr{{be.X, be.Y}, {be.Y, be.X}} {
+			fv, base := fieldOf(info, pair[0])
+			if fv == nil || fv.Name() != "Key" || base == nil {
+				continue
+			}
+			if built != nil && sameVar(info, base, built) {
+				continue // the other side is judged below
+			}
+			// pair[0] is a stored member's key; pair[1] is what it is compared with
+			other := unparen(pair[1])
+			n++
+			if fo, bo := fieldOf(info, other); fo != nil && fo.Name() == "Key" && built != nil && sameVar(info, bo, built) {
+				continue // compared with the key the new member is stored under
+			}
+			if sameVar(info, other, keyParam) {
+				if !verbatim {
+					bad, badPos = "the search compares stored keys with the caller's argument while "+why, be.Pos()
+				}
+				continue
+			}
+			bad, badPos = "the search compares stored keys with "+exprStr(other)+", which is neither the new member's key nor the key argument", be.Pos()
+		}
+		return true
+	})
+	if n == 0 {
+		return // the search is delegated (judged where it lives) or written in a form this rule does not read
+	}
+	pos := ins.Pos()
+	if bad != "" {
+		pos = badPos
+	}
+	c.Check(bad == "", rule, "trace|TraceState.Insert|the member to replace is looked up by the key the new member is stored under", at(tx.M, pos), itoa(n)+" comparison(s) with the stored spelling of the key",
+		"an existing member is missed and the key ends up in the list twice (the tracestate no longer re-parses): "+bad)
 }
